@@ -446,8 +446,18 @@ def run_kani_property(pid, tier, seed, replay=None):
             log(f"[{pid}] {h['name']}: {r['verdict']} ({wall:.0f}s, {r['checks']} checks)")
             return h, r
 
-        with cf.ThreadPoolExecutor(max_workers=JOBS) as ex:
-            done = list(ex.map(work, hs))
+        # memory-hungry harnesses (two/three-actor states, longest vectors) run at most two at a
+        # time after the light ones: three of them side by side exhaust 62 GB
+        heavy_re = re.compile(r"_n[234]\b|_n[234]_|perm4|len[24]|hashmap_adjacent|insertion_order|network_rewrite")
+        light = [h for h in hs if not heavy_re.search(h["name"])]
+        heavy = [h for h in hs if heavy_re.search(h["name"])]
+        done = []
+        if light:
+            with cf.ThreadPoolExecutor(max_workers=JOBS) as ex:
+                done += list(ex.map(work, light))
+        if heavy:
+            with cf.ThreadPoolExecutor(max_workers=min(JOBS, int(os.environ.get("VERIF_HEAVY_JOBS", "3")))) as ex:
+                done += list(ex.map(work, heavy))
         for h, r in done:
             results.append(r)
             if r["verdict"] == "inconclusive":
